@@ -866,4 +866,16 @@ theorem initU2B_cases (fs : FS) (p : String) (st st' : Loader) (e : Bool) (h : i
         cases h
         exact ⟨rfl, Or.inr (Or.inr ⟨hz, rfl, c, rows, rfl, hp, rfl⟩)⟩
 
+theorem splitAux_ne_nil (sep : Nat) : ∀ (s cur : Bytes) (acc : List Bytes), splitAux sep s cur acc ≠ [] := by
+  intro s
+  induction s with
+  | nil => intro cur acc; simp [splitAux]
+  | cons c cs ih =>
+    intro cur acc
+    simp only [splitAux]
+    by_cases h : c = sep
+    · simp only [h, if_true]; exact ih _ _
+    · simp only [h, if_false]; exact ih _ _
+
+
 end PttVerif.C17
